@@ -5,7 +5,8 @@ interpreted abstractly on small windows (len, k, p) with the p-mer scores as unk
 including ties is explored and the resulting intervals are checked against the clauses of the statement (start order,
 exact k-1 overlap, lengths in [k, 2k-p], minimizer = the p-mer at the reported position, inside every k-mer of the
 interval, minimal there, and no interval ends early); every narrowing `as` cast in scan is dominated by an assertion
-bounding it; scores are never truncated before comparison."""
+bounding it; scores are never truncated before comparison.
+Added later: long-sequence rows one block past every size constant the scanner mentions; k-mer reads on byte containers."""
 from .. import dt_msp, structural, lemmas
 from . import common
 
